@@ -1,7 +1,8 @@
 // C12 — the ledger recovers exactly after a crash at any persistence point (fault_enumeration).
 //
-// Space: every block history over {E empty, G one state-changing governance tx, F one failing tx}^L
-// (L = 3 quick / 5 thorough) x both commit paths (ExecuteBlock+SubmitBlock, AddBlock) x EVERY durable
+// Space: every block history over {E empty, G one state-changing governance tx, X one probe tx that writes
+// contract storage and emits two cross-chain records (PutMerkleVal)}^3 (quick); thorough: {E,G,X}^5 plus
+// {E,G,F,X}^4 with F = one failing tx; x both commit paths (ExecuteBlock+SubmitBlock, AddBlock) x EVERY durable
 // write event k of genesis initialisation and of every block's persistence (verifhook.OnPersist fires
 // before each leveldb put/delete/batch-commit and merkle hash-file append). Crash executions run in a
 // CHILD PROCESS that os.Exit()s inside the hook before write k (writes 1..k-1 landed, process-crash
@@ -32,6 +33,7 @@ import (
 	"github.com/polynetwork/poly/native/service/governance/node_manager"
 	"github.com/polynetwork/poly/native/service/utils"
 	"verif.local/engine/ev"
+	"verif.local/engine/lib/probe"
 	"verif.local/engine/polyenv"
 )
 
@@ -53,12 +55,21 @@ func txsFor(kind byte, height uint32, vals []*polyenv.Acct) []*types.Transaction
 	case 'G': // state-changing: a fresh key registers itself as candidate
 		k := polyenv.Key(100 + int(height))
 		return []*types.Transaction{polyenv.Tx(utils.NodeManagerContractAddress, node_manager.REGISTER_CANDIDATE, regArgs(k), height, polyenv.Single(k))}
+	case 'X': // cross-chain records: storage cell(h) = "X<h>", cross-state leaves H("X<h>"), H("Y<h>")
+		v := fmt.Sprintf("X%d", height)
+		return []*types.Transaction{probe.Tx([]probe.Op{{C: probe.Put, K: cell(height), V: v}, {C: probe.Merkle, V: v},
+			{C: probe.Merkle, V: fmt.Sprintf("Y%d", height)}}, height, polyenv.Key(400+int(height)))}
 	case 'F': // failing: registration of a foreign key signed by somebody else (witness check fails)
 		k := polyenv.Key(200 + int(height))
 		return []*types.Transaction{polyenv.Tx(utils.NodeManagerContractAddress, node_manager.REGISTER_CANDIDATE, regArgs(k), height, polyenv.Single(vals[0]))}
 	}
 	return nil
 }
+
+// cell is the probe storage cell written by an X block at the given height; crossKey its contract-storage key
+// (what GetCrossStatesProof takes).
+func cell(height uint32) byte       { return byte('a' + height) }
+func crossKey(height uint32) []byte { return probe.StorageKey(cell(height)) }
 
 func commit(ch *polyenv.Chain, b *types.Block, path string) error {
 	if path == "sync" {
@@ -262,6 +273,7 @@ func childMain() {
 		blocks = append(blocks, b)
 	}
 	native.Contracts[utils.NodeManagerContractAddress] = node_manager.RegisterNodeManagerContract
+	probe.Install()
 	vals := polyenv.Keys(nVals)
 	polyenv.Setup(0, vals)
 	n := 0
@@ -379,6 +391,10 @@ func observe(ch *polyenv.Chain) *snap {
 		nts, err := l.GetEventNotifyByBlock(h)
 		j, _ := json.Marshal(nts)
 		lk[fmt.Sprintf("notifies@%d", h)] = fmt.Sprintf("%s err=%v", j, err != nil)
+		cr, err := l.GetCrossStateRoot(h)
+		lk[fmt.Sprintf("crossroot@%d", h)] = fmt.Sprintf("%s err=%v", cr.ToHexString(), err)
+		cp, err := l.GetCrossStatesProof(h, crossKey(h))
+		lk[fmt.Sprintf("crossproof@%d", h)] = fmt.Sprintf("%x err=%v", cp, err != nil)
 		sr, err := l.GetStateMerkleRoot(h)
 		lk[fmt.Sprintf("stateroot@%d", h)] = fmt.Sprintf("%s err=%v", sr.ToHexString(), err)
 		for ph := uint32(0); ph <= h; ph++ {
@@ -515,6 +531,13 @@ func reference(r *ev.Run, kinds, path string, vals []*polyenv.Acct, scratch stri
 			}
 			if ch.L.GetCurrentBlockHeight() != h {
 				r.HarnessError("reference chain %s/%s: height %d after block %d", kinds, path, ch.L.GetCurrentBlockHeight(), h)
+			}
+			if kinds[i] == 'X' { // the X block must really produce provable cross-chain records
+				cr, _ := ch.L.GetCrossStateRoot(h)
+				if _, err := ch.L.GetCrossStatesProof(h, crossKey(h)); err != nil || cr == common.UINT256_EMPTY {
+					r.HarnessError("X block at %d has no provable cross-state record: root %s err %v", h, cr.ToHexString(), err)
+				}
+				r.Class("cross-state-block-committed")
 			}
 			rf.Snaps = append(rf.Snaps, observe(ch))
 		}
@@ -664,6 +687,7 @@ func main() {
 		return
 	}
 	native.Contracts[utils.NodeManagerContractAddress] = node_manager.RegisterNodeManagerContract
+	probe.Install()
 	r := ev.Start("C12", "fault_enumeration")
 	debug.SetGCPercent(1000) // every block execution / store open allocates multi-MiB buffers: keep freed spans for reuse
 	L := r.QT(3, 5)
@@ -677,7 +701,7 @@ func main() {
 	verifhook.OnPersist = hook
 	scratch := polyenv.TmpDir("c12")
 	defer os.RemoveAll(scratch)
-	r.Require("recovered@h", "recovered@h-1", "crash-in-genesis-init", "crash-in-block", "path:commit", "path:sync")
+	r.Require("recovered@h", "recovered@h-1", "crash-in-genesis-init", "crash-in-block", "path:commit", "path:sync", "cross-state-block-committed")
 	workers := runtime.NumCPU()
 	if workers > 16 {
 		workers = 16
@@ -686,18 +710,32 @@ func main() {
 	// --- histories and reference runs
 	type hp struct{ kinds, path string }
 	var hist []hp
-	var gen func(p string)
-	gen = func(p string) {
-		if len(p) == L {
-			// trailing honest state-changing block: "it then accepts the next block"
-			hist = append(hist, hp{p + "G", "commit"}, hp{p + "G", "sync"})
+	have := map[string]bool{}
+	var gen func(p string, alpha string, n int)
+	gen = func(p string, alpha string, n int) {
+		if len(p) == n {
+			if !have[p] {
+				have[p] = true
+				// trailing honest state-changing block: "it then accepts the next block"
+				hist = append(hist, hp{p + "G", "commit"}, hp{p + "G", "sync"})
+			}
 			return
 		}
-		for _, c := range "EGF" {
-			gen(p + string(c))
+		for _, c := range alpha {
+			gen(p+string(c), alpha, n)
 		}
 	}
-	gen("")
+	alphabets := "{E,G,X}^3"
+	if os.Getenv("C12_L") != "" {
+		alphabets = fmt.Sprintf("{E,G,X}^%d", L)
+		gen("", "EGX", L)
+	} else if r.Quick() {
+		gen("", "EGX", 3)
+	} else {
+		alphabets = "{E,G,X}^5 + {E,G,F,X}^4"
+		gen("", "EGX", 5)
+		gen("", "EGFX", 4)
+	}
 	if r.ReplayPath != "" {
 		var d struct {
 			History string `json:"history"`
@@ -723,7 +761,7 @@ func main() {
 	for _, rf := range refs[:nrefs] {
 		for k := 1; k <= len(rf.Events); k++ {
 			e := rf.Events[k-1]
-			if e.Block > L { // the trailing block is the successor to submit, not a crash target
+			if e.Block > len(rf.Kinds)-1 { // the trailing block is the successor to submit, not a crash target
 				continue
 			}
 			key := fmt.Sprintf("%s|%s|%d", rf.Kinds[:e.Block], rf.Path, k)
@@ -915,12 +953,13 @@ func main() {
 	}
 	r.Assume("process-crash model: a completed leveldb write / batch and a completed hash-file write survive; no torn writes, no power-loss reordering",
 		"crash = panic inside the persistence hook before write k, raw stores closed, directory reopened (cross-checked against real child-process exits on the shortest histories)",
-		"block contents: empty, one state-changing registerCandidate, one failing registerCandidate (cross-chain vote-import blocks are not in the alphabet)",
+		"block contents: empty, one state-changing registerCandidate, one probe-contract tx (storage write + two PutMerkleVal cross-chain records; engine/lib/probe dispatches to the real NativeService primitives), one failing registerCandidate (thorough only); real cross_chain_manager imports are not in the alphabet",
 		"4 validators, private net (network id 0); blocks are built once by the crash-free twin and replayed byte-identically")
 	os.RemoveAll(scratch) // Finish exits the process: deferred cleanup would not run
 	r.Finish(map[string]any{
 		"rule":                           "crash before every durable write k of genesis init and of every block of every history; reopen == crash-free twin at recovered height (h or h-1, never a mixture); next honest blocks accepted; second reopen equal",
 		"history_length":                 L,
+		"history_alphabets":              alphabets,
 		"histories":                      len(hist),
 		"reference_runs":                 nrefs,
 		"commit_paths":                   []string{"ExecuteBlock+SubmitBlock", "AddBlock"},
